@@ -71,7 +71,20 @@ namespace vu
       template< typename R, typename I, typename... S > void apply0( const I&, S&&... );
    };
 
+   // the same with control disabled for the rule (hidden internal rules): no hook of the wrapped control may be reached through a wrapper
+   template< typename R >
+   struct base_ctl0 : base_ctl< R >
+   {
+      static constexpr bool enable = false;
+   };
+   // a control state that is not interested in the rule
+   struct CtlState0 : CtlState
+   {
+      template< typename R > static constexpr bool enable = false;
+   };
+
    template< typename R > using sc = state_control< base_ctl >::type< R >;
+   template< typename R > using sc0 = state_control< base_ctl0 >::type< R >;
    template< typename R > using rfs = remove_first_state< base_ctl< R > >;
    template< typename R > using rls = remove_last_states< base_ctl< R >, 1 >;
    template< typename R > using rot_l = rotate_states_left< base_ctl< R > >;
@@ -87,6 +100,12 @@ namespace vu
    // an Errors class that asks for a raise without providing a message (the rule's own error_message is used)
    struct Errors2 { template< typename R > static constexpr const char* message = nullptr; template< typename R > static constexpr bool raise_on_failure = std::is_same_v< R, P1m >; };
    template< typename R > using mif2 = must_if< Errors2, normal, false >::control< R >;
+   // messages for every rule, but the "turn local failure into global failure" feature switched off (doc/Errors-and-Exceptions.md)
+   struct Errors3 { template< typename R > static constexpr const char* message = "failed"; template< typename R > static constexpr bool raise_on_failure = false; };
+   template< typename R > using mif3 = must_if< Errors3, normal, true >::control< R >;
+   // an explicit raise_on_failure that disagrees with the presence of a message in both directions
+   struct Errors4 { template< typename R > static constexpr const char* message = errmsg< R >; template< typename R > static constexpr bool raise_on_failure = !std::is_same_v< R, P1 >; };
+   template< typename R > using mif4 = must_if< Errors4, normal, false >::control< R >;
 
    template< template< typename... > class C, typename I, typename... S >
    void use_hooks( I& in, const I& cin, S&... st )
@@ -137,6 +156,13 @@ namespace vu
 #endif
 #if VU_PART == 2
       use_hooks< sc >( in, cin, cs );
+      {
+         CtlState0 cs0;
+         use_hooks< sc0 >( in, cin, cs );
+         use_hooks< sc0 >( in, cin, st, cs );
+         use_hooks< sc >( in, cin, cs0 );
+         use_hooks< sc >( in, cin, st, cs0 );
+      }
       use_hooks< sc >( in, cin, st, cs );
       use_hooks< rfs >( in, cin, st );
       use_hooks< rfs >( in, cin, st, st2 );
@@ -154,6 +180,10 @@ namespace vu
       mif2< P1m >::failure( cin, st );
       mif2< P2 >::failure( cin, st );
       mif2< P1m >::raise( cin, st );
+      mif3< P1 >::failure( cin, st );
+      mif3< P2 >::failure( cin, st );
+      mif4< P1 >::failure( cin, st );
+      mif4< P1m >::failure( cin, st );
       mif< P1 >::raise( cin, st );
       r = use4< P1, act, mif >( in ) && r;
       normal< P1 >::raise( cin, st );
